@@ -48,10 +48,22 @@ fn run_scenario(out: &mut Out, scn: &Value, r: &mut StdRng) {
     // geometry table: 2..4 distinctive points per edge; sometimes the table is too short (missing geometries)
     let ne = b.si.directed_graph.n_edges();
     let ngeoms = if scn["missing_geoms"].as_bool().unwrap_or(false) { r.gen_range(0..ne.max(1)) } else { ne };
+    // as in real geometry files, an edge's line string starts at its source vertex and ends at its destination vertex (so
+    // consecutive route edges share the joint coordinate), with 0..2 distinctive points in between; every fifth edge
+    // stores one coordinate twice in a row
+    let vxy = |v: usize| ((v * 1000 + 7) as f32, (v * 13 + 1) as f32);
     let geoms: Vec<LineString<f32>> = (0..ngeoms)
         .map(|e| {
-            let n = 2 + (e % 3);
-            LineString::from((0..n).map(|k| ((e * 100 + k) as f32, (e * 7 + 3 * k) as f32)).collect::<Vec<(f32, f32)>>())
+            let edge = &b.si.directed_graph.edges[e];
+            let mut p: Vec<(f32, f32)> = vec![vxy(edge.src_vertex_id.0)];
+            for k in 0..(e % 3) {
+                p.push(((e * 100 + k + 50) as f32, (e * 7 + 3 * k + 500) as f32));
+                if e % 5 == 0 {
+                    p.push(((e * 100 + k + 50) as f32, (e * 7 + 3 * k + 500) as f32));
+                }
+            }
+            p.push(vxy(edge.dst_vertex_id.0));
+            LineString::from(p)
         })
         .collect();
     let fmts = [("edge_id", TraversalOutputFormat::EdgeId), ("json", TraversalOutputFormat::Json), ("geo_json", TraversalOutputFormat::GeoJson),
